@@ -1537,10 +1537,16 @@ func createDefaultMailboxes(db *sql.DB, userID int64) error {
 	}
 
 	for _, mbx := range defaultMailboxes {
-		_, err := conn.ExecContext(ctx, `
+		// Every mailbox of a store gets its own UIDVALIDITY (see
+		// nextUIDValidityPerUser), also the defaults created in the same second
+		uidValidity, err := nextUIDValidityPerUser(connRowQuerier{ctx, conn})
+		if err != nil {
+			return fmt.Errorf("failed to create mailbox %s: %v", mbx.name, err)
+		}
+		_, err = conn.ExecContext(ctx, `
 			INSERT INTO mailboxes (user_id, name, uid_validity, uid_next, special_use)
 			VALUES (?, ?, ?, ?, ?)
-		`, userID, mbx.name, time.Now().Unix(), 1, mbx.specialUse)
+		`, userID, mbx.name, uidValidity, 1, mbx.specialUse)
 		if err != nil {
 			return fmt.Errorf("failed to create mailbox %s: %v", mbx.name, err)
 		}
@@ -1551,6 +1557,16 @@ func createDefaultMailboxes(db *sql.DB, userID int64) error {
 	}
 	committed = true
 	return nil
+}
+
+// connRowQuerier lets a dedicated connection be used where QueryRow is expected.
+type connRowQuerier struct {
+	ctx  context.Context
+	conn *sql.Conn
+}
+
+func (c connRowQuerier) QueryRow(query string, args ...interface{}) *sql.Row {
+	return c.conn.QueryRowContext(c.ctx, query, args...)
 }
 
 // createSharedIndexes creates indexes for shared database tables
